@@ -30,6 +30,7 @@ func init() {
 			"(engine-not-shared) every fragment gets its storage from Engine.Fork, and Fork builds fresh tables and index maps (only the table size and the configuration come from the parent).",
 		Run: func(r *core.Run) {
 			c19DestroyFanOut(r)
+			c19DestroyLayers(r)
 			c19FragmentKey(r)
 			fragmentNameNormalised(r)
 			c19EngineNotShared(r)
@@ -62,6 +63,19 @@ func c19DestroyFanOut(r *core.Run) {
 				}
 				if sends {
 					found = true
+					// and no member is skipped: no way through an iteration avoids the spawn
+					spawn := func(in ssa.Instruction) bool {
+						mc, ok := in.(*ssa.MakeClosure)
+						if !ok {
+							return false
+						}
+						an, ok := mc.Fn.(*ssa.Function)
+						return ok && len(findInstrs(an, true, callTo(fnRedisProcess))) > 0
+					}
+					skip := skippingLatch(l, spawn)
+					r.Check(skip == nil, "destroy-fan-out", fnDestroyCluster+" no member skipped", site(r, l.Pos()),
+						"every iteration sends the local destroy to its member (this member included)",
+						"an iteration can end without sending the local destroy to its member"+blockAt(r, skip)+": that member (for example this one, handled by a direct call instead) keeps or mishandles its fragments")
 				}
 			}
 		}
